@@ -8,7 +8,7 @@ from pdfminer.pdfdocument import (
     PDFNoPageLabels,
     PDFTextExtractionNotAllowed,
 )
-from pdfminer.pdfexceptions import PDFObjectNotFound, PDFValueError
+from pdfminer.pdfexceptions import PDFObjectNotFound, PDFTypeError, PDFValueError
 from pdfminer.pdfparser import PDFParser
 from pdfminer.pdftypes import dict_value, int_value, list_value, resolve1
 from pdfminer.psparser import LIT
@@ -94,7 +94,13 @@ class PDFPage:
             else:
                 # This looks broken. obj.objid means obj could be either
                 # PDFObjRef or PDFStream, but neither is valid for dict_value.
-                object_id = obj.objid  # type: ignore[attr-defined]
+                object_id = getattr(obj, "objid", None)
+                if object_id is None:
+                    # The nodes of the page tree are indirect objects.
+                    if settings.STRICT:
+                        raise PDFTypeError("Indirect object required: %r" % obj)
+                    log.warning("Ignoring page tree node %r", obj)
+                    return
                 object_properties = dict_value(obj).copy()
 
             # Avoid recursion errors by keeping track of visited nodes
